@@ -5,6 +5,7 @@ over both registers (`Bal2`).
 -/
 import TlxVerif.Proofs.C01Ops
 namespace TlxVerif.C01
+set_option linter.unusedSectionVars false
 
 /-- refinement relation: same comparators, both trees satisfy the invariant for the comparator they
 hold, and their entry sequences are the abstract lists -/
